@@ -303,3 +303,522 @@ Proof.
   intros llc h x Hl Ht Hw. unfold decode. rewrite decode_fuel_enc by assumption. rewrite Ht. cbn [pdukind_of enc_body].
   rewrite psnp_rt; [reflexivity|assumption|]. rewrite enc_packet_length. cbn [enc_body]. lia.
 Qed.
+
+(* ------------------------------------------------------------------ no panic *)
+
+Definition np {A : Type} (r : res A) : Prop := r <> Panic.
+
+Lemma np_bind : forall (A B : Type) (r : res A) (k : A -> res B),
+  np r -> (forall a, r = Ok a -> np (k a)) -> np (bind r k).
+Proof. intros A B r k Hr Hk. destruct r; cbn; try discriminate; [apply Hk; reflexivity|exfalso; apply Hr; reflexivity]. Qed.
+
+Lemma np_rd_u8 : forall b, np (rd_u8 b). Proof. destruct b; discriminate. Qed.
+Lemma np_rd_u16 : forall b, np (rd_u16 b). Proof. destruct b as [|? [|? ?]]; discriminate. Qed.
+Lemma np_rd_u32 : forall b, np (rd_u32 b). Proof. destruct b as [|? [|? [|? [|? ?]]]]; discriminate. Qed.
+Lemma np_rd_bytes : forall n b, np (rd_bytes n b).
+Proof. intros. unfold rd_bytes. destruct (n <=? length b)%nat; discriminate. Qed.
+Lemma np_buf_read : forall n b, np (buf_read n b).
+Proof. intros. unfold buf_read. destruct b; [destruct (n =? 0)%nat|]; discriminate. Qed.
+
+Lemma np_area_loop : forall f read tlen b, np (area_loop f read tlen b).
+Proof.
+  induction f as [|f IH]; intros; cbn [area_loop]; [discriminate|].
+  destruct (read <? tlen); [|discriminate].
+  apply np_bind; [apply np_rd_u8|]. intros [alen b1] _.
+  apply np_bind; [apply np_buf_read|]. intros [[area k] b2] _.
+  apply np_bind; [apply IH|]. intros [rest b3] _. discriminate.
+Qed.
+
+Lemma np_rd_entry : forall b, np (rd_entry b).
+Proof.
+  intros. unfold rd_entry.
+  apply np_bind; [apply np_rd_u16|]. intros [? ?] _.
+  apply np_bind; [apply np_rd_bytes|]. intros [? ?] _.
+  apply np_bind; [apply np_rd_u32|]. intros [? ?] _.
+  apply np_bind; [apply np_rd_u16|]. intros [? ?] _. discriminate.
+Qed.
+
+Lemma np_entries_loop : forall f toread b, np (entries_loop f toread b).
+Proof.
+  induction f as [|f IH]; intros; cbn [entries_loop]; [discriminate|].
+  destruct (0 <? toread); [|discriminate].
+  apply np_bind; [apply np_rd_entry|]. intros [e b1] _.
+  apply np_bind; [apply IH|]. intros [rest b2] _. discriminate.
+Qed.
+
+Lemma upd_length : forall l i v l', upd l i v = Some l' -> length l' = length l.
+Proof.
+  induction l as [|x l IH]; intros i v l' H; [discriminate|]. destruct i; cbn [upd] in H.
+  - inversion H; reflexivity.
+  - destruct (upd l i v) eqn:E; [|discriminate]. inversion H; subst. cbn [length]. f_equal. eapply IH; eassumption.
+Qed.
+
+Lemma upd_in_range : forall l i v, (i < length l)%nat -> upd l i v <> None.
+Proof.
+  induction l as [|x l IH]; intros i v H; [cbn in H; lia|]. destruct i; cbn [upd]; [discriminate|].
+  cbn [length] in H. specialize (IH i v ltac:(lia)). destruct (upd l i v); [discriminate|contradiction].
+Qed.
+
+(* the index of ids[i] = protoID stays inside make([]uint8, tlvLength) *)
+Lemma np_proto_loop : forall n i arr b, length arr = (i + n)%nat -> np (proto_loop n i arr b).
+Proof.
+  induction n as [|n IH]; intros i arr b H; cbn [proto_loop]; [discriminate|].
+  apply np_bind; [apply np_rd_u8|]. intros [x b1] _.
+  destruct (upd arr i x) eqn:E.
+  - apply IH. rewrite (upd_length _ _ _ _ E). lia.
+  - exfalso. eapply upd_in_range; [|exact E]. lia.
+Qed.
+
+Lemma np_rd_u32s : forall n b, np (rd_u32s n b).
+Proof.
+  induction n as [|n IH]; intros; cbn [rd_u32s]; [discriminate|].
+  apply np_bind; [apply np_rd_u32|]. intros [? ?] _.
+  apply np_bind; [apply IH|]. intros [? ?] _. discriminate.
+Qed.
+
+Lemma np_read_p2padj : forall ty len b, np (read_p2padj ty len b).
+Proof.
+  intros. unfold read_p2padj. destruct (len =? 5); [|destruct (len =? 15)].
+  - apply np_bind; [apply np_rd_u8|]. intros [? ?] _.
+    apply np_bind; [apply np_rd_u32|]. intros [? ?] _. discriminate.
+  - apply np_bind; [apply np_rd_u8|]. intros [? ?] _.
+    apply np_bind; [apply np_rd_u32|]. intros [? ?] _.
+    apply np_bind; [apply np_rd_bytes|]. intros [? ?] _.
+    apply np_bind; [apply np_rd_u32|]. intros [? ?] _. discriminate.
+  - discriminate.
+Qed.
+
+Lemma np_read_unknown : forall ty len b, np (read_unknown ty len b).
+Proof.
+  intros. unfold read_unknown. apply np_bind; [apply np_buf_read|]. intros [[v k] b1] _.
+  destruct (k =? N.to_nat len)%nat; discriminate.
+Qed.
+
+Lemma np_read_tlv : forall f b, np (read_tlv f b).
+Proof.
+  intros. unfold read_tlv.
+  apply np_bind; [apply np_rd_u8|]. intros [ty b1] _.
+  apply np_bind; [apply np_rd_u8|]. intros [len b2] _.
+  destruct (kind_of ty).
+  - apply np_bind; [apply np_rd_bytes|]. intros [? ?] _. discriminate.
+  - apply np_bind; [apply np_rd_u16|]. intros [? ?] _. discriminate.
+  - apply np_bind; [apply np_proto_loop; rewrite repeat_length; reflexivity|]. intros [? ?] _. discriminate.
+  - apply np_bind; [apply np_rd_u32s|]. intros [? ?] _. discriminate.
+  - apply np_bind; [apply np_area_loop|]. intros [? ?] _. discriminate.
+  - apply np_read_p2padj.
+  - apply np_bind; [apply np_rd_bytes|]. intros [? ?] _. discriminate.
+  - apply np_bind; [apply np_entries_loop|]. intros [? ?] _. discriminate.
+  - apply np_read_unknown.
+Qed.
+
+Lemma np_read_tlvs : forall f b, np (read_tlvs f b).
+Proof.
+  induction f as [|f IH]; intros; cbn [read_tlvs]; [discriminate|]. destruct b; [discriminate|].
+  apply np_bind; [apply np_read_tlv|]. intros [t b1] _.
+  apply np_bind; [apply IH|]. intros ts _. discriminate.
+Qed.
+
+Lemma np_decode_header : forall b, np (decode_header b).
+Proof.
+  intros. unfold decode_header.
+  destruct b as [|? [|? [|? [|? [|? [|? [|? [|? [|? [|? [|? ?]]]]]]]]]]]; discriminate.
+Qed.
+
+Lemma np_decode_p2p_hello : forall f b, np (decode_p2p_hello f b).
+Proof.
+  intros. unfold decode_p2p_hello.
+  apply np_bind; [apply np_rd_u8|]. intros [? ?] _.
+  apply np_bind; [apply np_rd_bytes|]. intros [? ?] _.
+  apply np_bind; [apply np_rd_u16|]. intros [? ?] _.
+  apply np_bind; [apply np_rd_u16|]. intros [? ?] _.
+  apply np_bind; [apply np_rd_u8|]. intros [? ?] _.
+  apply np_bind; [apply np_read_tlvs|]. intros ? _. discriminate.
+Qed.
+
+Lemma np_decode_l2_hello : forall f b, np (decode_l2_hello f b).
+Proof.
+  intros. unfold decode_l2_hello.
+  apply np_bind; [apply np_rd_u8|]. intros [? ?] _.
+  apply np_bind; [apply np_rd_bytes|]. intros [? ?] _.
+  apply np_bind; [apply np_rd_u16|]. intros [? ?] _.
+  apply np_bind; [apply np_rd_u16|]. intros [? ?] _.
+  apply np_bind; [apply np_rd_u8|]. intros [? ?] _.
+  apply np_bind; [apply np_rd_u8|]. intros [? ?] _.
+  apply np_bind; [apply np_rd_bytes|]. intros [? ?] _.
+  apply np_bind; [apply np_read_tlvs|]. intros ? _. discriminate.
+Qed.
+
+Lemma np_decode_lsp : forall f b, np (decode_lsp f b).
+Proof.
+  intros. unfold decode_lsp.
+  apply np_bind; [apply np_rd_u16|]. intros [? ?] _.
+  apply np_bind; [apply np_rd_u16|]. intros [? ?] _.
+  apply np_bind; [apply np_rd_bytes|]. intros [? ?] _.
+  apply np_bind; [apply np_rd_u32|]. intros [? ?] _.
+  apply np_bind; [apply np_rd_u16|]. intros [? ?] _.
+  apply np_bind; [apply np_rd_u8|]. intros [? ?] _.
+  apply np_bind; [apply np_read_tlvs|]. intros ? _. discriminate.
+Qed.
+
+Lemma np_decode_csnp : forall f b, np (decode_csnp f b).
+Proof.
+  intros. unfold decode_csnp.
+  apply np_bind; [apply np_rd_u16|]. intros [? ?] _.
+  apply np_bind; [apply np_rd_bytes|]. intros [? ?] _.
+  apply np_bind; [apply np_rd_bytes|]. intros [? ?] _.
+  apply np_bind; [apply np_rd_bytes|]. intros [? ?] _.
+  apply np_bind; [apply np_read_tlvs|]. intros ? _. discriminate.
+Qed.
+
+Lemma np_decode_psnp : forall f b, np (decode_psnp f b).
+Proof.
+  intros. unfold decode_psnp.
+  apply np_bind; [apply np_rd_u16|]. intros [? ?] _.
+  apply np_bind; [apply np_rd_bytes|]. intros [? ?] _.
+  apply np_bind; [apply np_read_tlvs|]. intros ? _. discriminate.
+Qed.
+
+Lemma np_decode_fuel : forall f b, np (decode_fuel f b).
+Proof.
+  intros. unfold decode_fuel. apply np_bind; [apply np_decode_header|]. intros [h b1] _.
+  destruct (pdukind_of (h_type h)).
+  - apply np_bind; [apply np_decode_p2p_hello|]. intros ? _. discriminate.
+  - apply np_bind; [apply np_decode_lsp|]. intros ? _. discriminate.
+  - apply np_bind; [apply np_decode_csnp|]. intros ? _. discriminate.
+  - apply np_bind; [apply np_decode_psnp|]. intros ? _. discriminate.
+  - discriminate.
+Qed.
+
+Theorem no_panic : forall b, decode b <> Panic.
+Proof. intros. apply np_decode_fuel. Qed.
+
+Theorem no_panic_l2 : forall b, decode_l2 b <> Panic.
+Proof. intros. apply np_decode_l2_hello. Qed.
+
+(* ------------------------------------------------------------------ fuel *)
+
+(* r1 is r2 or ran out of fuel *)
+Definition lef {A : Type} (r1 r2 : res A) : Prop := r1 = OutOfFuel \/ r1 = r2.
+
+Lemma lef_refl : forall (A : Type) (r : res A), lef r r. Proof. intros; right; reflexivity. Qed.
+
+Lemma lef_bind : forall (A B : Type) (r1 r2 : res A) (k1 k2 : A -> res B),
+  lef r1 r2 -> (forall a, lef (k1 a) (k2 a)) -> lef (bind r1 k1) (bind r2 k2).
+Proof.
+  intros A B r1 r2 k1 k2 [H|H] Hk; subst.
+  - left; reflexivity.
+  - destruct r2; cbn; try (right; reflexivity). apply Hk.
+Qed.
+
+Lemma area_loop_mono : forall f f' read tlen b, (f <= f')%nat ->
+  lef (area_loop f read tlen b) (area_loop f' read tlen b).
+Proof.
+  induction f as [|f IH]; intros f' read tlen b H; [left; reflexivity|].
+  destruct f'; [lia|]. cbn [area_loop]. destruct (read <? tlen); [|apply lef_refl].
+  apply lef_bind; [apply lef_refl|]. intros [alen b1].
+  apply lef_bind; [apply lef_refl|]. intros [[area k] b2].
+  apply lef_bind; [apply IH; lia|]. intros [rest b3]. apply lef_refl.
+Qed.
+
+Lemma entries_loop_mono : forall f f' toread b, (f <= f')%nat ->
+  lef (entries_loop f toread b) (entries_loop f' toread b).
+Proof.
+  induction f as [|f IH]; intros f' toread b H; [left; reflexivity|].
+  destruct f'; [lia|]. cbn [entries_loop]. destruct (0 <? toread); [|apply lef_refl].
+  apply lef_bind; [apply lef_refl|]. intros [e b1].
+  apply lef_bind; [apply IH; lia|]. intros [rest b2]. apply lef_refl.
+Qed.
+
+Lemma read_tlv_mono : forall f f' b, (f <= f')%nat -> lef (read_tlv f b) (read_tlv f' b).
+Proof.
+  intros f f' b H. unfold read_tlv.
+  apply lef_bind; [apply lef_refl|]. intros [ty b1].
+  apply lef_bind; [apply lef_refl|]. intros [len b2].
+  destruct (kind_of ty); try apply lef_refl.
+  - apply lef_bind; [apply area_loop_mono; assumption|]. intros [? ?]. apply lef_refl.
+  - apply lef_bind; [apply entries_loop_mono; assumption|]. intros [? ?]. apply lef_refl.
+Qed.
+
+Lemma read_tlvs_mono : forall f f' b, (f <= f')%nat -> lef (read_tlvs f b) (read_tlvs f' b).
+Proof.
+  induction f as [|f IH]; intros f' b H; [left; reflexivity|].
+  destruct f'; [lia|]. cbn [read_tlvs]. destruct b; [apply lef_refl|].
+  apply lef_bind; [apply read_tlv_mono; lia|]. intros [t b1].
+  apply lef_bind; [apply IH; lia|]. intros ts. apply lef_refl.
+Qed.
+
+Lemma decode_fuel_mono : forall f f' b, (f <= f')%nat -> lef (decode_fuel f b) (decode_fuel f' b).
+Proof.
+  intros f f' b H. unfold decode_fuel. apply lef_bind; [apply lef_refl|]. intros [h b1].
+  destruct (pdukind_of (h_type h)); try apply lef_refl.
+  - apply lef_bind; [|intros; apply lef_refl]. unfold decode_p2p_hello.
+    repeat (apply lef_bind; [apply lef_refl|]; intros [? ?]).
+    apply lef_bind; [apply read_tlvs_mono; assumption|]. intros; apply lef_refl.
+  - apply lef_bind; [|intros; apply lef_refl]. unfold decode_lsp.
+    repeat (apply lef_bind; [apply lef_refl|]; intros [? ?]).
+    apply lef_bind; [apply read_tlvs_mono; assumption|]. intros; apply lef_refl.
+  - apply lef_bind; [|intros; apply lef_refl]. unfold decode_csnp.
+    repeat (apply lef_bind; [apply lef_refl|]; intros [? ?]).
+    apply lef_bind; [apply read_tlvs_mono; assumption|]. intros; apply lef_refl.
+  - apply lef_bind; [|intros; apply lef_refl]. unfold decode_psnp.
+    repeat (apply lef_bind; [apply lef_refl|]; intros [? ?]).
+    apply lef_bind; [apply read_tlvs_mono; assumption|]. intros; apply lef_refl.
+Qed.
+
+Lemma decode_l2_hello_mono : forall f f' b, (f <= f')%nat -> lef (decode_l2_hello f b) (decode_l2_hello f' b).
+Proof.
+  intros f f' b H. unfold decode_l2_hello.
+  repeat (apply lef_bind; [apply lef_refl|]; intros [? ?]).
+  apply lef_bind; [apply read_tlvs_mono; assumption|]. intros; apply lef_refl.
+Qed.
+
+(* how much of the buffer a successful read leaves *)
+Definition leaves {A : Type} (r : res (A * buf)) (b : buf) (k : nat) : Prop :=
+  forall a b', r = Ok (a, b') -> (length b' + k <= length b)%nat.
+
+Definition nof {A : Type} (r : res A) : Prop := r <> OutOfFuel.
+
+Lemma nof_bind : forall (A B : Type) (r : res A) (k : A -> res B),
+  nof r -> (forall a, r = Ok a -> nof (k a)) -> nof (bind r k).
+Proof. intros A B r k Hr Hk. destruct r; cbn; try discriminate; [apply Hk; reflexivity|exfalso; apply Hr; reflexivity]. Qed.
+
+Lemma leaves_rd_u8 : forall b, leaves (rd_u8 b) b 1.
+Proof. intros b a b' H. destruct b; inversion H; subst. cbn. lia. Qed.
+Lemma leaves_rd_u16 : forall b, leaves (rd_u16 b) b 2.
+Proof. intros b a b' H. destruct b as [|? [|? ?]]; inversion H; subst. cbn. lia. Qed.
+Lemma leaves_rd_u32 : forall b, leaves (rd_u32 b) b 4.
+Proof. intros b a b' H. destruct b as [|? [|? [|? [|? ?]]]]; inversion H; subst. cbn. lia. Qed.
+Lemma leaves_rd_bytes : forall n b, leaves (rd_bytes n b) b n.
+Proof.
+  intros n b a b' H. unfold rd_bytes in H. destruct (n <=? length b)%nat eqn:E; inversion H; subst.
+  rewrite skipn_length. apply Nat.leb_le in E. lia.
+Qed.
+Lemma leaves_buf_read : forall n b, leaves (buf_read n b) b 0.
+Proof.
+  intros n b a b' H. unfold buf_read in H. destruct b.
+  - destruct (n =? 0)%nat; inversion H; subst. cbn. lia.
+  - inversion H; subst. rewrite skipn_length. lia.
+Qed.
+
+Lemma nof_rd_u8 : forall b, nof (rd_u8 b). Proof. destruct b; discriminate. Qed.
+Lemma nof_rd_u16 : forall b, nof (rd_u16 b). Proof. destruct b as [|? [|? ?]]; discriminate. Qed.
+Lemma nof_rd_u32 : forall b, nof (rd_u32 b). Proof. destruct b as [|? [|? [|? [|? ?]]]]; discriminate. Qed.
+Lemma nof_rd_bytes : forall n b, nof (rd_bytes n b).
+Proof. intros. unfold rd_bytes. destruct (n <=? length b)%nat; discriminate. Qed.
+Lemma nof_buf_read : forall n b, nof (buf_read n b).
+Proof. intros. unfold buf_read. destruct b; [destruct (n =? 0)%nat|]; discriminate. Qed.
+
+(* inversion of a successful bind *)
+Lemma bind_ok : forall (A B : Type) (r : res A) (k : A -> res B) (v : B),
+  bind r k = Ok v -> exists a, r = Ok a /\ k a = Ok v.
+Proof. intros A B r k v H. destruct r; cbn in H; try discriminate. eauto. Qed.
+
+Lemma area_loop_ok : forall f read tlen b, (length b < f)%nat ->
+  nof (area_loop f read tlen b) /\ leaves (area_loop f read tlen b) b 0.
+Proof.
+  induction f as [|f IH]; intros read tlen b H; [lia|]. cbn [area_loop].
+  destruct (read <? tlen).
+  2:{ split; [discriminate|]. intros a b' E. inversion E; subst. lia. }
+  split.
+  - apply nof_bind; [apply nof_rd_u8|]. intros [alen b1] E1. apply leaves_rd_u8 in E1.
+    apply nof_bind; [apply nof_buf_read|]. intros [[area k] b2] E2. apply leaves_buf_read in E2.
+    apply nof_bind; [apply IH; lia|]. intros [rest b3] _. discriminate.
+  - intros a b' E.
+    apply bind_ok in E. destruct E as ([alen b1] & E1 & E). apply leaves_rd_u8 in E1.
+    apply bind_ok in E. destruct E as ([[area k] b2] & E2 & E). apply leaves_buf_read in E2.
+    apply bind_ok in E. destruct E as ([rest b3] & E3 & E). apply IH in E3; [|lia].
+    inversion E; subst. lia.
+Qed.
+
+Lemma leaves_rd_entry : forall b, leaves (rd_entry b) b 16.
+Proof.
+  intros b a b' E. unfold rd_entry in E.
+  apply bind_ok in E. destruct E as ([? b1] & E1 & E). apply leaves_rd_u16 in E1.
+  apply bind_ok in E. destruct E as ([? b2] & E2 & E). apply leaves_rd_bytes in E2.
+  apply bind_ok in E. destruct E as ([? b3] & E3 & E). apply leaves_rd_u32 in E3.
+  apply bind_ok in E. destruct E as ([? b4] & E4 & E). apply leaves_rd_u16 in E4.
+  inversion E; subst. lia.
+Qed.
+
+Lemma nof_rd_entry : forall b, nof (rd_entry b).
+Proof.
+  intros. unfold rd_entry.
+  apply nof_bind; [apply nof_rd_u16|]. intros [? ?] _.
+  apply nof_bind; [apply nof_rd_bytes|]. intros [? ?] _.
+  apply nof_bind; [apply nof_rd_u32|]. intros [? ?] _.
+  apply nof_bind; [apply nof_rd_u16|]. intros [? ?] _. discriminate.
+Qed.
+
+Lemma entries_loop_ok : forall f toread b, (length b < f)%nat ->
+  nof (entries_loop f toread b) /\ leaves (entries_loop f toread b) b 0.
+Proof.
+  induction f as [|f IH]; intros toread b H; [lia|]. cbn [entries_loop].
+  destruct (0 <? toread).
+  2:{ split; [discriminate|]. intros a b' E. inversion E; subst. lia. }
+  split.
+  - apply nof_bind; [apply nof_rd_entry|]. intros [e b1] E1. apply leaves_rd_entry in E1.
+    apply nof_bind; [apply IH; lia|]. intros [rest b2] _. discriminate.
+  - intros a b' E.
+    apply bind_ok in E. destruct E as ([e b1] & E1 & E). apply leaves_rd_entry in E1.
+    apply bind_ok in E. destruct E as ([rest b2] & E2 & E). apply IH in E2; [|lia].
+    inversion E; subst. lia.
+Qed.
+
+Lemma proto_loop_ok : forall n i arr b,
+  nof (proto_loop n i arr b) /\ leaves (proto_loop n i arr b) b 0.
+Proof.
+  induction n as [|n IH]; intros i arr b; cbn [proto_loop].
+  { split; [discriminate|]. intros a b' E. inversion E; subst. lia. }
+  split.
+  - apply nof_bind; [apply nof_rd_u8|]. intros [x b1] _. destruct (upd arr i x); [apply IH|discriminate].
+  - intros a b' E. apply bind_ok in E. destruct E as ([x b1] & E1 & E). apply leaves_rd_u8 in E1.
+    destruct (upd arr i x); [|discriminate]. apply IH in E. lia.
+Qed.
+
+Lemma rd_u32s_ok : forall n b, nof (rd_u32s n b) /\ leaves (rd_u32s n b) b 0.
+Proof.
+  induction n as [|n IH]; intros b; cbn [rd_u32s].
+  { split; [discriminate|]. intros a b' E. inversion E; subst. lia. }
+  split.
+  - apply nof_bind; [apply nof_rd_u32|]. intros [? ?] _.
+    apply nof_bind; [apply IH|]. intros [? ?] _. discriminate.
+  - intros a b' E. apply bind_ok in E. destruct E as ([x b1] & E1 & E). apply leaves_rd_u32 in E1.
+    apply bind_ok in E. destruct E as ([xs b2] & E2 & E). apply IH in E2. inversion E; subst. lia.
+Qed.
+
+Lemma read_p2padj_ok : forall ty len b, nof (read_p2padj ty len b) /\ leaves (read_p2padj ty len b) b 0.
+Proof.
+  intros. unfold read_p2padj. destruct (len =? 5); [|destruct (len =? 15)].
+  - split.
+    + apply nof_bind; [apply nof_rd_u8|]. intros [? ?] _.
+      apply nof_bind; [apply nof_rd_u32|]. intros [? ?] _. discriminate.
+    + intros a b' E. apply bind_ok in E. destruct E as ([? b1] & E1 & E). apply leaves_rd_u8 in E1.
+      apply bind_ok in E. destruct E as ([? b2] & E2 & E). apply leaves_rd_u32 in E2. inversion E; subst. lia.
+  - split.
+    + apply nof_bind; [apply nof_rd_u8|]. intros [? ?] _.
+      apply nof_bind; [apply nof_rd_u32|]. intros [? ?] _.
+      apply nof_bind; [apply nof_rd_bytes|]. intros [? ?] _.
+      apply nof_bind; [apply nof_rd_u32|]. intros [? ?] _. discriminate.
+    + intros a b' E. apply bind_ok in E. destruct E as ([? b1] & E1 & E). apply leaves_rd_u8 in E1.
+      apply bind_ok in E. destruct E as ([? b2] & E2 & E). apply leaves_rd_u32 in E2.
+      apply bind_ok in E. destruct E as ([? b3] & E3 & E). apply leaves_rd_bytes in E3.
+      apply bind_ok in E. destruct E as ([? b4] & E4 & E). apply leaves_rd_u32 in E4. inversion E; subst. lia.
+  - split; [discriminate|]. intros a b' E. inversion E; subst. lia.
+Qed.
+
+Lemma read_unknown_ok : forall ty len b, nof (read_unknown ty len b) /\ leaves (read_unknown ty len b) b 0.
+Proof.
+  intros. unfold read_unknown. split.
+  - apply nof_bind; [apply nof_buf_read|]. intros [[v k] b1] _. destruct (k =? N.to_nat len)%nat; discriminate.
+  - intros a b' E. apply bind_ok in E. destruct E as ([[v k] b1] & E1 & E). apply leaves_buf_read in E1.
+    destruct (k =? N.to_nat len)%nat; inversion E; subst. lia.
+Qed.
+
+Lemma read_tlv_ok : forall f b, (length b <= S f)%nat ->
+  nof (read_tlv f b) /\ leaves (read_tlv f b) b 2.
+Proof.
+  intros f b H. unfold read_tlv. split.
+  - apply nof_bind; [apply nof_rd_u8|]. intros [ty b1] E1. apply leaves_rd_u8 in E1.
+    apply nof_bind; [apply nof_rd_u8|]. intros [len b2] E2. apply leaves_rd_u8 in E2.
+    destruct (kind_of ty).
+    + apply nof_bind; [apply nof_rd_bytes|]. intros [? ?] _. discriminate.
+    + apply nof_bind; [apply nof_rd_u16|]. intros [? ?] _. discriminate.
+    + apply nof_bind; [apply proto_loop_ok|]. intros [? ?] _. discriminate.
+    + apply nof_bind; [apply rd_u32s_ok|]. intros [? ?] _. discriminate.
+    + apply nof_bind; [apply area_loop_ok; lia|]. intros [? ?] _. discriminate.
+    + apply read_p2padj_ok.
+    + apply nof_bind; [apply nof_rd_bytes|]. intros [? ?] _. discriminate.
+    + apply nof_bind; [apply entries_loop_ok; lia|]. intros [? ?] _. discriminate.
+    + apply read_unknown_ok.
+  - intros a b' E.
+    apply bind_ok in E. destruct E as ([ty b1] & E1 & E). apply leaves_rd_u8 in E1.
+    apply bind_ok in E. destruct E as ([len b2] & E2 & E). apply leaves_rd_u8 in E2.
+    destruct (kind_of ty).
+    + apply bind_ok in E. destruct E as ([? b3] & E3 & E). apply leaves_rd_bytes in E3. inversion E; subst. lia.
+    + apply bind_ok in E. destruct E as ([? b3] & E3 & E). apply leaves_rd_u16 in E3. inversion E; subst. lia.
+    + apply bind_ok in E. destruct E as ([? b3] & E3 & E). apply proto_loop_ok in E3. inversion E; subst. lia.
+    + apply bind_ok in E. destruct E as ([? b3] & E3 & E). apply rd_u32s_ok in E3. inversion E; subst. lia.
+    + apply bind_ok in E. destruct E as ([? b3] & E3 & E). apply area_loop_ok in E3; [|lia]. inversion E; subst. lia.
+    + apply read_p2padj_ok in E. lia.
+    + apply bind_ok in E. destruct E as ([? b3] & E3 & E). apply leaves_rd_bytes in E3. inversion E; subst. lia.
+    + apply bind_ok in E. destruct E as ([? b3] & E3 & E). apply entries_loop_ok in E3; [|lia]. inversion E; subst. lia.
+    + apply read_unknown_ok in E. lia.
+Qed.
+
+Lemma read_tlvs_nof : forall f b, (length b < f)%nat -> nof (read_tlvs f b).
+Proof.
+  induction f as [|f IH]; intros b H; [lia|]. cbn [read_tlvs]. destruct b as [|x b]; [discriminate|].
+  apply nof_bind; [apply read_tlv_ok; lia|]. intros [t b1] E1. apply read_tlv_ok in E1; [|lia].
+  apply nof_bind; [apply IH; lia|]. intros ts _. discriminate.
+Qed.
+
+Lemma leaves_decode_header : forall b, leaves (decode_header b) b 11.
+Proof.
+  intros b a b' E. unfold decode_header in E.
+  destruct b as [|? [|? [|? [|? [|? [|? [|? [|? [|? [|? [|? ?]]]]]]]]]]]; inversion E; subst. cbn [length]. lia.
+Qed.
+
+Lemma decode_fuel_nof : forall f b, (length b < f)%nat -> nof (decode_fuel f b).
+Proof.
+  intros f b H. unfold decode_fuel.
+  apply nof_bind; [unfold decode_header; destruct b as [|? [|? [|? [|? [|? [|? [|? [|? [|? [|? [|? ?]]]]]]]]]]]; discriminate|].
+  intros [h b0] E0. apply leaves_decode_header in E0.
+  destruct (pdukind_of (h_type h)); [| | | |discriminate].
+  - apply nof_bind; [|intros; discriminate]. unfold decode_p2p_hello.
+    apply nof_bind; [apply nof_rd_u8|]. intros [? b1] E1. apply leaves_rd_u8 in E1.
+    apply nof_bind; [apply nof_rd_bytes|]. intros [? b2] E2. apply leaves_rd_bytes in E2.
+    apply nof_bind; [apply nof_rd_u16|]. intros [? b3] E3. apply leaves_rd_u16 in E3.
+    apply nof_bind; [apply nof_rd_u16|]. intros [? b4] E4. apply leaves_rd_u16 in E4.
+    apply nof_bind; [apply nof_rd_u8|]. intros [? b5] E5. apply leaves_rd_u8 in E5.
+    apply nof_bind; [apply read_tlvs_nof; lia|]. intros; discriminate.
+  - apply nof_bind; [|intros; discriminate]. unfold decode_lsp.
+    apply nof_bind; [apply nof_rd_u16|]. intros [? b1] E1. apply leaves_rd_u16 in E1.
+    apply nof_bind; [apply nof_rd_u16|]. intros [? b2] E2. apply leaves_rd_u16 in E2.
+    apply nof_bind; [apply nof_rd_bytes|]. intros [? b3] E3. apply leaves_rd_bytes in E3.
+    apply nof_bind; [apply nof_rd_u32|]. intros [? b4] E4. apply leaves_rd_u32 in E4.
+    apply nof_bind; [apply nof_rd_u16|]. intros [? b5] E5. apply leaves_rd_u16 in E5.
+    apply nof_bind; [apply nof_rd_u8|]. intros [? b6] E6. apply leaves_rd_u8 in E6.
+    apply nof_bind; [apply read_tlvs_nof; lia|]. intros; discriminate.
+  - apply nof_bind; [|intros; discriminate]. unfold decode_csnp.
+    apply nof_bind; [apply nof_rd_u16|]. intros [? b1] E1. apply leaves_rd_u16 in E1.
+    apply nof_bind; [apply nof_rd_bytes|]. intros [? b2] E2. apply leaves_rd_bytes in E2.
+    apply nof_bind; [apply nof_rd_bytes|]. intros [? b3] E3. apply leaves_rd_bytes in E3.
+    apply nof_bind; [apply nof_rd_bytes|]. intros [? b4] E4. apply leaves_rd_bytes in E4.
+    apply nof_bind; [apply read_tlvs_nof; lia|]. intros; discriminate.
+  - apply nof_bind; [|intros; discriminate]. unfold decode_psnp.
+    apply nof_bind; [apply nof_rd_u16|]. intros [? b1] E1. apply leaves_rd_u16 in E1.
+    apply nof_bind; [apply nof_rd_bytes|]. intros [? b2] E2. apply leaves_rd_bytes in E2.
+    apply nof_bind; [apply read_tlvs_nof; lia|]. intros; discriminate.
+Qed.
+
+Lemma decode_l2_hello_nof : forall f b, (length b < f)%nat -> nof (decode_l2_hello f b).
+Proof.
+  intros f b H. unfold decode_l2_hello.
+  apply nof_bind; [apply nof_rd_u8|]. intros [? b1] E1. apply leaves_rd_u8 in E1.
+  apply nof_bind; [apply nof_rd_bytes|]. intros [? b2] E2. apply leaves_rd_bytes in E2.
+  apply nof_bind; [apply nof_rd_u16|]. intros [? b3] E3. apply leaves_rd_u16 in E3.
+  apply nof_bind; [apply nof_rd_u16|]. intros [? b4] E4. apply leaves_rd_u16 in E4.
+  apply nof_bind; [apply nof_rd_u8|]. intros [? b5] E5. apply leaves_rd_u8 in E5.
+  apply nof_bind; [apply nof_rd_u8|]. intros [? b6] E6. apply leaves_rd_u8 in E6.
+  apply nof_bind; [apply nof_rd_bytes|]. intros [? b7] E7. apply leaves_rd_bytes in E7.
+  apply nof_bind; [apply read_tlvs_nof; lia|]. intros; discriminate.
+Qed.
+
+(* any fuel above the number of bytes gives the result of packet.Decode, which is never "out of fuel" *)
+Theorem fuel_suffices : forall b f, (length b < f)%nat ->
+  decode_fuel f b = decode b /\ decode b <> OutOfFuel.
+Proof.
+  intros b f H. unfold decode.
+  assert (N1 : nof (decode_fuel (S (length b)) b)) by (apply decode_fuel_nof; lia).
+  split; [|exact N1].
+  destruct (decode_fuel_mono (S (length b)) f b ltac:(lia)) as [E|E]; [contradiction|]. symmetry; exact E.
+Qed.
+
+Theorem fuel_suffices_l2 : forall b f, (length b < f)%nat ->
+  decode_l2_hello f b = decode_l2 b /\ decode_l2 b <> OutOfFuel.
+Proof.
+  intros b f H. unfold decode_l2.
+  assert (N1 : nof (decode_l2_hello (S (length b)) b)) by (apply decode_l2_hello_nof; lia).
+  split; [|exact N1].
+  destruct (decode_l2_hello_mono (S (length b)) f b ltac:(lia)) as [E|E]; [contradiction|]. symmetry; exact E.
+Qed.
